@@ -113,6 +113,44 @@ theorem resolve1_ne_fuel (hG : Gen.Lenient.resolve1Guard = true) (strict : Bool)
   · intro n hn; cases hn
   · simp
 
+/-- Every reference followed is a new object number; all but possibly the last exist in the graph: the loop makes at
+most `distinct object numbers + 1` getobj calls, whatever the fuel. -/
+theorem resolve1CallsFuel_le (hG : Gen.Lenient.resolve1Guard = true) (g : Graph) :
+    ∀ (fuel : Nat) (seen : List Nat) (x : Obj), seen.Nodup → (∀ n ∈ seen, n ∈ objids g) →
+      resolve1CallsFuel g fuel seen x + seen.length ≤ (objids g).length + 1 := by
+  intro fuel
+  induction fuel with
+  | zero =>
+    intro seen x hn hs
+    have := nodup_subset_length seen (objids g) hn hs
+    cases x <;> simp [resolve1CallsFuel] <;> omega
+  | succ f ih =>
+    intro seen x hn hs
+    have hp := nodup_subset_length seen (objids g) hn hs
+    cases x with
+    | ref n =>
+      simp only [resolve1CallsFuel, hG, Bool.true_and]
+      by_cases hc : seen.contains n = true
+      · simp only [hc, if_true]; omega
+      · simp only [hc]
+        cases hl : g.lookup n with
+        | none => simp only [Bool.false_eq_true, if_false]; omega
+        | some y =>
+          simp only [Bool.false_eq_true, if_false]
+          have hnot : n ∉ seen := by simpa using hc
+          have hmem : n ∈ objids g := by
+            unfold objids
+            rw [List.mem_eraseDups]
+            exact lookup_isSome_mem g n (by simp [hl])
+          have := ih (n :: seen) y (List.nodup_cons.mpr ⟨hnot, hn⟩) (by
+            intro m hm
+            cases List.mem_cons.mp hm with
+            | inl h => subst h; exact hmem
+            | inr h => exact hs m h)
+          simp only [List.length_cons] at this
+          omega
+    | _ => simp [resolve1CallsFuel]; omega
+
 theorem isFamily_pdfValueError : Err.isFamily .pdfValueError = true := by decide
 theorem isFamily_pdfTypeError : Err.isFamily .pdfTypeError = true := by decide
 theorem isFamily_pdfObjectNotFound : Err.isFamily .pdfObjectNotFound = true := by decide
